@@ -148,7 +148,7 @@ func profileFor(prop string) Profile {
 	case "C03":
 		p.PAuto, p.PCordon, p.PAsgEdit, p.PForceTaint = 0.35, 0.4, 0.4, 0.35
 	case "C04":
-		p.PMaxBelow, p.PAuto, p.PAsgEdit, p.PBigGroup, p.PFleet = 0.6, 0.15, 0.3, 0.08, 0.35
+		p.PMaxBelow, p.PAuto, p.PAsgEdit, p.PBigGroup, p.PFleet = 0.6, 0.15, 0.3, 0.2, 0.4
 		p.FaultBias = map[string]float64{OpAttach: 5}
 	case "C05", "C06":
 		p.EdgeBias, p.PDry, p.PGlobalDry, p.POdd, p.PResize, p.PNodeLoss, p.ShortCool = 0.5, 0.02, 0, 0.02, 0.2, 0.35, 0.8
@@ -162,6 +162,7 @@ func profileFor(prop string) Profile {
 		p.FaultBias = map[string]float64{OpDelete: 8, OpTerminateASG: 2}
 	case "C10":
 		p.PAnnotate, p.ShortGrace, p.PForceTaint = 0.7, 0.9, 0.3
+		p.FaultBias = map[string]float64{OpTerminateASG: 8, OpDelete: 3}
 	case "C11":
 		p.PDry, p.PGlobalDry, p.PReconfigure, p.PCrash, p.Groups = 0.5, 0.2, 0.6, 0.5, []int{3, 4, 3}
 	case "C12":
@@ -353,6 +354,11 @@ func drawGroup(ch *Choices, p Profile, rc *RunCfg, idx int, isDefault bool) *Gro
 		g.Max = 30 + s.Intn(16)
 		g.ASGMin, g.ASGMax = int64(s.Intn(g.Min+1)), int64(g.Max)
 		g.InitialNodes = 22 + s.Intn(g.Max-21)
+		if s.Chance(0.5) { // a big group that is still small: scale-ups of more than 20 nodes
+			g.InitialNodes = 1 + s.Intn(5)
+			g.Max = 40 + s.Intn(20)
+			g.ASGMax = int64(g.Max + []int{0, 5, 40}[s.Intn(3)])
+		}
 		g.BigGroup = true
 	}
 	if s.Chance(0.1) {
